@@ -2,7 +2,8 @@
    The checker is written from the property text.  It decides, from the request alone, the list of
    reasons for which the request is unsafe/inconsistent; a request with a reason must fail with (one
    of) the matching error class(es) and leave nothing mapped; a request with no reason must yield a
-   region reporting the requested size / protection / flags / file / offset - unless the operating
+   region reporting the requested size / protection / flags / file / offset (and the hugetlbfs label
+   given to the builder, which never makes a request safe or unsafe) - unless the operating
    system itself refuses the mapping (observed by an independent probe of the harness), in which
    case it must fail and leave nothing mapped.  A shared file-backed region must show byte
    offset+i of the file as its byte i, both directions.
@@ -20,7 +21,8 @@ Record case15 := {
   c_file : option (N * N);      (* (length of the backing file, requested start offset) *)
   c_raw : option N;             (* pointer, relative to a page-aligned base *)
   c_base : option N;            (* guest base address *)
-  c_page : N; c_cohere : bool }.
+  c_page : N; c_cohere : bool;
+  c_huge : N }.                 (* builder only: the hugetlbfs hint, 0 not given, 1 with_hugetlbfs(false), 2 (true) *)
 
 (* result code: 0 = Ok, otherwise the error class
    1 InvalidOffsetLength 2 InvalidPointer 3 MapFixed 4 MappingPastEof 5 Mmap 6 InvalidGuestRegion
@@ -31,7 +33,8 @@ Record obs15 := {
   o_owned : bool; o_ptr : N; o_pos : N;
   o_d1 : N;                     (* bytes mapped while the region lives, minus before *)
   o_d2 : N;                     (* bytes mapped after failure / after dropping the region, minus before *)
-  o_coh1 : N; o_coh2 : N }.     (* file->region, region->file: 1 equal, 0 different, 2 not tested *)
+  o_coh1 : N; o_coh2 : N;       (* file->region, region->file: 1 equal, 0 different, 2 not tested *)
+  o_huge : N }.                 (* is_hugetlbfs() of the region: 0 None, 1 Some(false), 2 Some(true) *)
 
 Definition hasbit (f b : N) : bool := negb (N.land f b =? 0).
 Definition explicit_flags (c : case15) : bool := (c_kind c =? 0) || (c_kind c =? 3) || (c_kind c =? 4).
@@ -69,6 +72,9 @@ Definition ok_C15 (c : case15) (o : obs15) : bool :=
         match c_file c with
         | Some (_, start) => o_hasfile o && (o_start o =? start) && o_samefd o
         | None => negb (o_hasfile o) end &&
+        (* "builds what was asked": the region carries the hugetlbfs label of the request (a label only: it
+           is not among the reasons, a request is exactly as safe with it as without) *)
+        (o_huge o =? c_huge c) &&
         (* a file-backed (not MAP_ANONYMOUS = 32) mapping that is shared - requested with MAP_SHARED (= 1), or
            made by from_file / from_range(file), documented as "a shared file mapping" - is coherent with
            the file in both directions, whenever that was examined *)
